@@ -225,7 +225,7 @@ def validate(chk, traces):
     for off in range(0, len(traces), CH):
         part = traces[off:off + CH]
         files = {"MCT.tla": "---- MODULE MCT ----\nEXTENDS LineageTrace\n" + classes_tla() + "====\n",
-                 "MCT.cfg": V.cfg_text(dict(Repaired=True, MaxLen=0, FzChoices=set(), FzoChoices=set()),
+                 "MCT.cfg": V.cfg_text(dict(Repaired=True, MaxLen=0, ExtraVals=True, FzChoices=set(), FzoChoices=set()),
                                        ["Progress", "NoStaleRead", "KeyIsLineage", "FuzzyAccepts"], spec="TraceSpec",
                                        overrides=dict(Classes="ClassesDef"), extra="PROPERTY NothingWrittenUnderFuzzy\nPOSTCONDITION AllAccepted\n")}
         d = V.stage_spec([], files)
@@ -309,15 +309,17 @@ def hash_stability(chk, lineages):
 def run(chk):
     V.quiet_threads()
     # design level
-    for rep, ml in ((True, 4 if chk.tier == "quick" else 5), (False, 4)):
+    # thorough: histories <= 5 with the plain option values, <= 4 with the values that compare equal in Python added
+    runs = ((True, 4, True), (False, 4, True)) if chk.tier == "quick" else ((True, 5, False), (True, 4, True), (False, 4, True))
+    for rep, ml, xv in runs:
         files = {"MC.tla": "---- MODULE MC ----\nEXTENDS Lineage\n" + classes_tla() + "FzDef == {{}, {2}}\nFzoDef == {{}, {5}}\n====\n",
-                 "MC.cfg": V.cfg_text(dict(Repaired=rep, MaxLen=ml),
+                 "MC.cfg": V.cfg_text(dict(Repaired=rep, MaxLen=ml, ExtraVals=xv),
                                       ["NoStaleRead", "KeyIsLineage", "OptionMoves", "ClassMoves", "FuzzyAccepts"],
                                       overrides=dict(Classes="ClassesDef", FzChoices="FzDef", FzoChoices="FzoDef"),
                                       extra="PROPERTY NothingWrittenUnderFuzzy\n")}
         d = V.stage_spec([], files)
-        r = V.run_tlc(d, "MC", "MC.cfg", timeout=1800)
-        chk.add_tlc(r, f"Lineage.tla histories <= {ml}, Repaired={rep}")
+        r = V.run_tlc(d, "MC", "MC.cfg", timeout=3600)
+        chk.add_tlc(r, f"Lineage.tla histories <= {ml}, Repaired={rep}, ExtraVals={xv}")
         V.tlc_must_finish(r, "Lineage")
         if rep and r.violated:
             chk.extra["design_violation"] = r.violated
